@@ -17,18 +17,29 @@ EXPLANATION = ("C twins of the Rust rules, decided on clang's typed, macro-expan
                "BLAKE3_NO_<ISA> is defined, simd_degree's chain equals hash_many's and stays <= MAX_SIMD_DEGREE, the "
                "xof_many fallback loops counter+i; R1c blake3_portable.c g/round_fn/compress_pre and feed-forward against "
                "the spec terms; K4c/K5c lane counters and transposed state rows of the C intrinsics kernels; PB the caller-buffer "
-               "budget discipline of c/blake3.c (see C07). Byte-exact output and the update loop's subtree arithmetic are NOT decided.")
-TRUSTED = ["clang 14 parser / Sema (JSON AST)", "engines/cfront/cast.py mini-IR", "engines/rules/csym.py term evaluation", "spec model"]
+               "budget discipline of c/blake3.c (see C07). "
+               "All AST rules run once per C preprocessor flavour (GNU x86-64, MSVC x86-64/i686 with -U__clang__, GNU i686, aarch64/NEON, "
+               "generic non-GNU compiler), so the _MSC_VER / 32-bit / fallback branches are decided too. ZPC: zero padding of the block "
+               "buffer (buf_len = 0 only together with memset of buf). M1C: for every BLAKE3_NO_<ISA> configuration the widest degree "
+               "blake3_simd_degree can return fits the five scratch arrays (>=). HBC: highest_one returns the index of the highest set bit "
+               "in every #if form (interval interpretation over the 64 highest-bit classes), popcnt / round_down_to_power_of_2 forms. "
+               "D3C/D4C: cpuid/xgetbv probes and the CPUID feature-bit decode against the architectural table. "
+               "Byte-exact output is NOT decided.")
+TRUSTED = ["declaration-only header stand-ins under engines/cfront/stubs (MSVC CRT, Windows.h, glibc 32-bit stub list)", "Intel SDM CPUID/XCR0 bit table (r_c.CPUID_BITS)", "clang 14 parser / Sema (JSON AST)", "engines/cfront/cast.py mini-IR", "engines/rules/csym.py term evaluation", "spec model"]
 ASSUMPTIONS = ["memcpy/memset write exactly their destination argument", "x86-64 configuration of blake3_impl.h (MAX_SIMD_DEGREE 16)"]
-TECHNIQUE = "clang-AST rules: known-bits dataflow, field write sets, guard nesting, table comparison, symbolic round evaluation"
+TECHNIQUE = "clang-AST rules per preprocessor flavour: known-bits dataflow, field write sets, guard nesting, table comparison, symbolic round evaluation, interval interpretation over highest-bit classes"
 DESIGN_REF = "DESIGN.md section 1 (E3), section 2 (C twins) and section 4 (C06)"
 
 
 def run(ctx):
-    for name in ("FC", "KC", "modeC", "S1C", "S4C", "M3C", "D1C", "G1C"):
-        ctx.run_rule(name, getattr(r_c, "rule_" + name))
+    # the AST rules run once per C preprocessor flavour: GNU x86-64 (the build analysed everywhere else), the MSVC personality
+    # (_MSC_VER branches: __cpuid/_xgetbv, Interlocked* cache access, _BitScanReverse64/__popcnt64) and, in the thorough tier,
+    # the 32-bit x86 and aarch64 parses of the same sources
+    fl = ["gnu-x86_64", "msvc-x86_64", "generic"] if ctx.tier == "quick" else list(r_c.C_FLAVOURS)
+    for name in ("FC", "KC", "modeC", "S1C", "S4C", "M3C", "D1C", "G1C", "LZC", "ZPC", "M1C", "D3C", "D4C"):
+        ctx.run_c_rule(name, getattr(r_c, "rule_" + name), fl)
+    ctx.run_c_rule("HBC", r_c.rule_HBC, list(r_c.C_FLAVOURS))     # every #if branch of the bit helpers, in both tiers
     ctx.run_rule("R1c", r_round.rule_R1_c)
-    ctx.run_rule("LZC", r_c.rule_LZC)
     ctx.run_rule("W1C", r_c.rule_W1C)
     ctx.run_rule("K4c", r_round.rule_K4_c)
     ctx.run_rule("K5c", r_round.rule_K5_c)
